@@ -296,4 +296,156 @@ theorem sortGroups_at : ∀ {gs gs' : List Group}, sortGroups gs = .ok gs' →
     · cases h
     · cases h
 
+/-! ### the annotation printers never panic on the allocator's output -/
+
+/-- what `process_definition` guarantees about the binding it stores on a declaration -/
+def GoodFor (p : Params) (d : Decl) (b : Binding) : Prop :=
+  match b.loc with
+  | .index _ => b.slotType.isSome = p.requireSlotType
+  | .inline _ => b.slotType = none ∧ p.supportBufferAddress = true ∧ ∃ s ss k l, d = .global s ss (some k) l
+
+theorem step_good {p : Params} {dflt : Nat} {st st' : State} {d : Decl} {b : Binding}
+    (h : step p dflt st d = .ok (st', some b)) : GoodFor p d b := by
+  cases d with
+  | other => simp [step] at h
+  | cbuffer s =>
+    simp [step, Counter.bump] at h
+    obtain ⟨_, rfl⟩ := h
+    cases hr : p.requireSlotType <;> simp [GoodFor, hr]
+  | global s ss k l =>
+    unfold step at h
+    simp only [] at h
+    split at h
+    · cases h
+    · split at h
+      · cases h
+      · rename_i k'
+        split at h
+        · simp only [Counter.bump, Except.ok.injEq, Prod.mk.injEq, Option.some.injEq] at h
+          obtain ⟨_, rfl⟩ := h
+          have hc : (p.supportBufferAddress && isBufferAddress k' && l.isNone) = true := by assumption
+          simp only [Bool.and_eq_true] at hc
+          exact ⟨rfl, hc.1.1, s, ss, k', l, rfl⟩
+        · split at h
+          · split at h
+            · simp only [Counter.bump, Except.ok.injEq, Prod.mk.injEq, Option.some.injEq] at h
+              obtain ⟨_, rfl⟩ := h
+              simp_all [GoodFor]
+            · cases h
+          · simp only [Counter.bump, Except.ok.injEq, Prod.mk.injEq, Option.some.injEq] at h
+            obtain ⟨_, rfl⟩ := h
+            simp_all [GoodFor]
+
+def AllGood (p : Params) : List Decl → List (Option Binding) → Prop
+  | d :: ds, ob :: bs => (∀ b, ob = some b → GoodFor p d b) ∧ AllGood p ds bs
+  | _, _ => True
+
+theorem run_good {p : Params} {dflt : Nat} : ∀ {ds : List Decl} {st st' : State} {bs : List (Option Binding)},
+    run p dflt st ds = .ok (st', bs) → AllGood p ds bs := by
+  intro ds
+  induction ds with
+  | nil => intro st st' bs h; simp [run] at h; obtain ⟨_, rfl⟩ := h; trivial
+  | cons d ds ih =>
+    intro st st' bs h
+    unfold run at h
+    split at h
+    · cases h
+    · rename_i st1 ob hstep
+      split at h
+      · cases h
+      · rename_i st2 bs' hrun
+        cases h
+        exact ⟨fun b hb => by subst hb; exact step_good hstep, ih hrun⟩
+
+theorem assign_good {p : Params} {dflt : Nat} {ds : List Decl} {res : Result} (h : assign p dflt ds = .ok res) :
+    AllGood p ds res.bindings := by
+  unfold assign at h
+  split at h
+  · cases h
+  · rename_i st bs hrun
+    cases h
+    exact run_good hrun
+
+/-- the parameter sets of the two HLSL flavours: register classes are requested only without buffer addresses -/
+def HlslParams (p : Params) : Prop := p.requireSlotType = true → p.supportBufferAddress = false
+
+theorem vkAnnot_ok {b : Binding} (h1 : b.slotType = none) {i : Nat} (h2 : b.loc = .index i) :
+    vkAnnot (some b) = .ok (some (.vk i b.set)) := by
+  simp [vkAnnot, h1, h2]
+
+theorem regAnnot_ok {b : Binding} {r : RegT} (h1 : b.slotType = some r) {i : Nat} (h2 : b.loc = .index i) :
+    regAnnot (some b) = .ok (some (.reg r i b.set)) := by
+  simp [regAnnot, h1, h2]
+
+/-- on a binding the allocator produced, the cbuffer/extern-global annotation is printed without panic -/
+theorem slotAnnot_total {p : Params} (hp : HlslParams p) {d : Decl} {b : Binding} (hg : GoodFor p d b)
+    {i : Nat} (hl : b.loc = .index i) :
+    ∃ a, (if requiresVk p then vkAnnot (some b) else regAnnot (some b)) = .ok (some a) := by
+  simp only [GoodFor, hl] at hg
+  cases hr : p.requireSlotType with
+  | true =>
+    have hs := hp hr
+    rw [hr] at hg
+    obtain ⟨r, hr'⟩ := Option.isSome_iff_exists.1 hg
+    exact ⟨.reg r i b.set, by simp [requiresVk, hr, hs, regAnnot_ok hr' hl]⟩
+  | false =>
+    rw [hr] at hg
+    have hn : b.slotType = none := by cases h : b.slotType <;> simp_all
+    exact ⟨.vk i b.set, by simp [requiresVk, hr, vkAnnot_ok hn hl]⟩
+
+theorem hlslAnnot_total {p : Params} (hp : HlslParams p) (d : MDecl) (ob : Option Binding)
+    (hg : ∀ b, ob = some b → GoodFor p d.toSlot b) : ∃ o, hlslAnnot p d ob = .ok o := by
+  cases d with
+  | other => exact ⟨_, rfl⟩
+  | cbuffer n s =>
+    cases ob with
+    | none => simp only [hlslAnnot]; split <;> exact ⟨_, rfl⟩
+    | some b =>
+      have hb := hg b rfl
+      cases hl : b.loc with
+      | index i =>
+        obtain ⟨a, ha⟩ := slotAnnot_total hp hb hl
+        exact ⟨_, by simpa [hlslAnnot] using ha⟩
+      | inline o =>
+        simp only [GoodFor, hl, MDecl.toSlot] at hb
+        obtain ⟨_, _, _, _, _, _, h⟩ := hb
+        cases h
+  | global n s ss k arr bl st =>
+    cases ob with
+    | none =>
+      simp only [hlslAnnot, storageAfter]
+      by_cases hst : (st == Storage.extern) = true
+      · by_cases hv : requiresVk p = true
+        · exact ⟨none, by simp [hst, hv, vkAnnot]⟩
+        · exact ⟨none, by simp [hst, hv, regAnnot]⟩
+      · exact ⟨none, by simp [hst]⟩
+    | some b =>
+      have hb := hg b rfl
+      obtain ⟨bs, bl', bt⟩ := b
+      cases bl' with
+      | inline o => exact ⟨_, rfl⟩
+      | index i =>
+        simp only [hlslAnnot, storageAfter]
+        by_cases hst : (st == Storage.extern) = true
+        · obtain ⟨a, ha⟩ := slotAnnot_total (b := ⟨bs, .index i, bt⟩) hp hb rfl
+          exact ⟨some a, by simp only [hst, if_true]; exact ha⟩
+        · exact ⟨none, by simp [hst]⟩
+
+theorem annots_total {p : Params} (hp : HlslParams p) : ∀ (ds : List MDecl) (bs : List (Option Binding)),
+    AllGood p (ds.map MDecl.toSlot) bs → ∃ r, annots (hlslAnnot p) ds bs = .ok r := by
+  intro ds
+  induction ds with
+  | nil => intro bs _; cases bs <;> exact ⟨_, rfl⟩
+  | cons d ds ih =>
+    intro bs hg
+    cases bs with
+    | nil => exact ⟨_, rfl⟩
+    | cons ob bs =>
+      simp only [List.map_cons, AllGood] at hg
+      obtain ⟨o, ho⟩ := hlslAnnot_total hp d ob hg.1
+      obtain ⟨r, hr⟩ := ih bs hg.2
+      cases o with
+      | none => exact ⟨r, by simp [annots, ho, hr]⟩
+      | some a => exact ⟨(d.name, a) :: r, by simp [annots, ho, hr]⟩
+
 end RsslVerif.Lemmas.Meta
